@@ -319,7 +319,9 @@ def value_to_py(cinco, v, schema_for_cfgobj=None, root=None):
         apply_state(cinco, obj, v.get("c"), root)
         return obj
     if t in ("list", "tuple"):
-        items = [value_to_py(cinco, x, None, root) for x in seq(v["l"])]
+        # (ready-made configurations inside a list value are instances of the list's item type)
+        item_factory = getattr(schema_for_cfgobj, "field", None)
+        items = [value_to_py(cinco, x, item_factory if x.get("t") == "cfgobj" else None, root) for x in seq(v["l"])]
         return items if t == "list" else tuple(items)
     if t == "dict":
         return {codec._hashable(value_to_py(cinco, k, None, root)): value_to_py(cinco, x, None, root) for k, x in seq(v["kv"])}
